@@ -13,9 +13,11 @@ pub const SVC_NS: &str = "";
 pub const TOOL_NS: &str = "tns";
 pub const TOOL_GROUP: &str = "tg";
 
+/// optional string field of a request: "" = not given, "<e>" = given as the empty string
 fn opt_str(v: &Value) -> Value {
     match v.as_str() {
         Some("") | None => Value::Null,
+        Some("<e>") => json!(""),
         Some(s) => json!(s),
     }
 }
@@ -39,9 +41,9 @@ pub fn to_client_request(r: &Value, index: u64) -> Value {
         "cfg_set" => json!({"ConfigSet": {"key": format!("{}\u{2}{}", k, GROUP), "value": r["v"], "config_type": opt_str(&r["ty"]), "desc": opt_str(&r["ds"]),
             "history_id": r["hid"], "history_table_id": r["hid"], "op_time": 1000 + index, "op_user": null}}),
         "cfg_del" => json!({"ConfigRemove": {"key": format!("{}\u{2}{}", k, GROUP)}}),
-        "ns_set" => json!({"NamespaceReq": {"Set": {"namespace_id": k, "namespace_name": r["v"], "type": null}}}),
+        "ns_set" => json!({"NamespaceReq": {"Set": {"namespace_id": k, "namespace_name": opt_str(&r["v"]), "type": null}}}),
         "ns_del" => json!({"NamespaceReq": {"Delete": {"id": k}}}),
-        "usr_set" => json!({"TableManagerReq": {"Set": {"table_name": "T_USER", "key": k.as_bytes(), "value": r["v"].as_str().unwrap_or("").as_bytes(), "last_seq_id": null}}}),
+        "usr_set" => json!({"TableManagerReq": {"Set": {"table_name": "T_USER", "key": k.as_bytes(), "value": user_bytes(k, r["v"].as_str().unwrap_or("")), "last_seq_id": null}}}),
         "usr_del" => json!({"TableManagerReq": {"Remove": {"table_name": "T_USER", "key": k.as_bytes()}}}),
         "seq_next" => json!({"SequenceReq": {"req": {"NextId": k}}}),
         "seq_range" => json!({"SequenceReq": {"req": {"NextRange": [k, r["n"]]}}}),
@@ -88,6 +90,40 @@ pub fn to_client_request(r: &Value, index: u64) -> Value {
     }
 }
 
+/// a user record as the user service stores it (the model value is the nick name)
+fn user_bytes(name: &str, nick: &str) -> Vec<u8> {
+    let u = rnacos::user::model::UserDo {
+        username: name.to_string(),
+        password: String::new(),
+        nickname: nick.to_string(),
+        gmt_create: 1000,
+        gmt_modified: 1000,
+        enable: true,
+        roles: vec!["0".to_string()],
+        extend_info: Default::default(),
+        password_hash: Some("$2b$04$verifverifverifverifveOZl3pM1Y0Q1x3b0X4kq4o9yJ0q1Jm".to_string()),
+        namespace_privilege_flags: None,
+        namespace_white_list: vec![],
+        namespace_black_list: vec![],
+        source: None,
+    };
+    u.to_bytes()
+}
+
+/// table value as dumped (text or hex) -> the nick name of the user record it holds
+fn user_nick(v: &Value) -> Value {
+    let s = v.as_str().unwrap_or("");
+    let bytes: Vec<u8> = if s.len() % 2 == 0 && s.chars().all(|c| c.is_ascii_hexdigit()) && !s.is_empty() {
+        (0..s.len()).step_by(2).filter_map(|i| u8::from_str_radix(&s[i..i + 2], 16).ok()).collect()
+    } else {
+        s.as_bytes().to_vec()
+    };
+    match rnacos::user::model::UserDo::from_bytes(&bytes) {
+        Ok(u) if !u.username.is_empty() => json!(u.nickname),
+        _ => v.clone(),
+    }
+}
+
 fn srv_id(r: &Value) -> u64 {
     r["k"].as_str().and_then(|x| x.parse().ok()).or(r["k"].as_u64()).unwrap_or(1)
 }
@@ -113,7 +149,13 @@ pub fn project(dump: &Value) -> Value {
         }
         ns.insert(k, v["name"].clone());
     }
-    let usr = as_map(&dump["tables"]["T_USER"]);
+    let mut usr = Map::new();
+    for (k, v) in as_map(&dump["tables"]["T_USER"]) {
+        if k == "admin" {
+            continue; // created by a leader node itself
+        }
+        usr.insert(k, user_nick(&v));
+    }
     let seq = as_map(&dump["seq"]);
     // persistent instances: "ns|group|svc|ip:port" -> model key "svc:ip:port"
     let mut nam = Map::new();
@@ -241,7 +283,9 @@ fn run_c01(i: usize, b: &Value) -> anyhow::Result<Value> {
             }
             "compact" => {
                 let r = node.call(&json!({"op":"compact"}))?;
-                if r["res"] != "ok" || r["index"] != s["upto"] {
+                // (the snapshot index may lag behind the model's applied index by the trailing requests a component
+                //  REFUSED - RemoveToolSpec of a tool in use: the store records only successful applies; the state is what counts)
+                if r["res"] != "ok" || r["index"].as_u64().unwrap_or(u64::MAX) > s["upto"].as_u64().unwrap_or(0) {
                     node.kill();
                     return Ok(mismatch(i, k, "compaction", json!({"res":"ok","index":s["upto"]}), r));
                 }
@@ -423,12 +467,225 @@ fn run_c07(i: usize, b: &Value) -> anyhow::Result<Value> {
     Ok(ok(i))
 }
 
+
+// ------------------------------------------------------------------------------------------------
+// data transfer (export / import): the request kinds an import sends (ConfigFullValue, NamespaceReq::Update,
+// McpReq::SetToolSpec / SetServer / ImportFinished, NamingReq::UpdateInstance, TableManagerReq::Set) go through
+// the same three apply paths and the same snapshot / replay persistence as everything else (C01, C07)
+
+/// what an export carries, with the ids an import renumbers (history ids, tool versions, server and value ids)
+/// replaced by what they identify
+fn transfer_canon(dump: &Value) -> Value {
+    let p = project(dump);
+    let mut cfg = Map::new();
+    for (k, v) in as_map(&p["cfg"]) {
+        let h: Vec<Value> = v["hist"].as_array().cloned().unwrap_or_default().iter().map(|x| x["content"].clone()).collect();
+        cfg.insert(k, json!({"content": v["content"], "ty": v["ty"], "desc": v["desc"], "hist": h}));
+    }
+    let mut tool = Map::new();
+    for (k, v) in as_map(&p["tool"]) {
+        let vers = as_map(&v["vers"]);
+        let mut vs: Vec<(u64, Value)> = vers.iter().map(|(n, c)| (n.parse().unwrap_or(0), c.clone())).collect();
+        vs.sort_by_key(|x| x.0);
+        let cur = v["cur"].as_u64().unwrap_or(0);
+        let cur_rank = vs.iter().position(|x| x.0 == cur);
+        tool.insert(k, json!({"versions": vs.iter().map(|x| x.1.clone()).collect::<Vec<_>>(), "current": cur_rank}));
+    }
+    let val = |v: &Value| -> Value {
+        let ts: Vec<Value> = v["tools"].as_array().cloned().unwrap_or_default().iter().map(|t| json!({"k": t["k"], "c": t["c"]})).collect();
+        json!(ts)
+    };
+    let mut srv: Vec<Value> = vec![];
+    for (_, v) in as_map(&p["srv"]) {
+        let hist: Vec<Value> = v["hist"].as_array().cloned().unwrap_or_default().iter().map(|h| val(h)).collect();
+        srv.push(json!({"name": v["name"], "cur": val(&v["cur"]), "rel": val(&v["rel"]), "hist": hist}));
+    }
+    srv.sort_by_key(|s| s.to_string());
+    json!({"cfg": cfg, "ns": p["ns"], "usr": p["usr"], "nam": p["nam"], "tool": tool, "srv": srv})
+}
+
+fn leader_node(dir: &str) -> anyhow::Result<NodeProc> {
+    leader_node_opt(dir, false)
+}
+
+/// `fresh`: the directory holds nothing worth keeping - wipe it before another attempt
+fn leader_node_opt(dir: &str, fresh: bool) -> anyhow::Result<NodeProc> {
+    // (a fresh auto-init node can die at start - DESIGN 0.3, observation; wipe and start it again, as tools/cluster.py does)
+    let mut last_err = String::new();
+    for attempt in 0..4 {
+        if fresh && attempt > 0 {
+            std::fs::remove_dir_all(dir).ok();
+            std::fs::create_dir_all(dir).ok();
+        }
+        let mut n = match NodeProc::start_env(dir, 700, &[("RNVERIF_LEADER", "1".to_string())]) {
+            Ok(n) => n,
+            Err(e) => {
+                last_err = e.to_string();
+                continue;
+            }
+        };
+        let w = n.call(&json!({"op":"wait_leader","ms":12000}))?;
+        if w["res"] != "ok" {
+            n.kill();
+            last_err = format!("no leader: {}", w);
+            continue;
+        }
+        // the node creates its default admin user once it leads; wait until its own writes have settled
+        let mut stable = 0;
+        let mut last = 0u64;
+        for _ in 0..200 {
+            let m = n.call(&json!({"op":"raft_metrics"}))?;
+            let (la, ll) = (m["last_applied"].as_u64().unwrap_or(0), m["last_log_index"].as_u64().unwrap_or(0));
+            let d = get_dump(&mut n)?;
+            let has_admin = d["tables"]["T_USER"].get("admin").is_some();
+            if la == ll && la == last && has_admin {
+                stable += 1;
+                if stable >= 6 {
+                    break;
+                }
+            } else {
+                stable = 0;
+                last = la;
+            }
+            std::thread::sleep(std::time::Duration::from_millis(100));
+        }
+        return Ok(n);
+    }
+    Err(anyhow::anyhow!("single-member node did not start: {}", last_err))
+}
+
+/// mode c01: the importing node's state must survive a restart (log replay of the import entries) and a
+///           compaction + restart (snapshot); mode c07: the import entries through the follower path on a
+///           third node give the same state.  The round trip itself (exported == imported) is reported as a
+///           note: it is not one of the listed properties.
+fn run_transfer(i: usize, b: &Value, c07: bool) -> anyhow::Result<Value> {
+    let (reqs, _groups) = sequence_of(b);
+    if reqs.is_empty() {
+        return Ok(ok(i));
+    }
+    // source node A (dormant Raft): the behaviour's requests, then the export
+    let dir_a = tempfile::tempdir()?;
+    let da = dir_a.path().to_string_lossy().into_owned();
+    let mut a = NodeProc::start(&da, 700)?;
+    for (j, r) in reqs.iter().enumerate() {
+        let idx = j as u64 + 1;
+        if let Some(e) = log_and_apply(&mut a, idx, &to_client_request(r, idx))? {
+            a.kill();
+            return Ok(mismatch(i, j, "apply failed on the exporting node", json!("ok"), e));
+        }
+    }
+    let dump_a = get_dump(&mut a)?;
+    let ex = a.call(&json!({"op":"transfer_export"}))?;
+    a.kill();
+    if ex["res"] != "ok" || ex["len"].as_u64().unwrap_or(0) == 0 {
+        return Err(anyhow::anyhow!("export failed: {}", ex.to_string().chars().take(200).collect::<String>()));
+    }
+    // target node B: a real single-member Raft group (the importer writes through Raft)
+    let dir_b = tempfile::tempdir()?;
+    let db = dir_b.path().to_string_lossy().into_owned();
+    let mut bn = leader_node_opt(&db, true)?;
+    let im = bn.call(&json!({"op":"transfer_import","hex":ex["hex"]}))?;
+    if im["res"] != "ok" {
+        bn.kill();
+        return Ok(mismatch(i, 0, "import did not finish", json!("ok"), im));
+    }
+    let dump_b = get_dump(&mut bn)?;
+    let mut notes = vec![];
+    let (ca, cb) = (transfer_canon(&dump_a), transfer_canon(&dump_b));
+    if ca != cb {
+        for part in ["cfg", "ns", "usr", "nam", "tool", "srv"] {
+            if ca[part] != cb[part] {
+                notes.push(json!({"round_trip_differs": part, "exported": ca[part], "imported": cb[part]}));
+            }
+        }
+    }
+    let last = im["last_log_index"].as_u64().unwrap_or(0);
+    let entries = bn.call(&json!({"op":"read_reqs","a":1,"b":last + 1}))?;
+    let imported_reqs: Vec<Value> = entries["entries"].as_array().cloned().unwrap_or_default().into_iter().filter(|e| !e["req"].is_null()).collect();
+    let kinds: std::collections::BTreeSet<String> = imported_reqs.iter().map(|e| {
+        let o = e["req"].as_object().unwrap();
+        let k = o.keys().next().cloned().unwrap_or_default();
+        match &o[&k] {
+            Value::Object(inner) if k == "McpReq" || k == "NamingReq" || k == "SequenceReq" => {
+                let r = &inner["req"];
+                let sub = r.as_object().and_then(|x| x.keys().next().cloned()).or(r.as_str().map(|s| s.to_string())).unwrap_or_default();
+                format!("{}::{}", k, sub)
+            }
+            Value::Object(inner) if k == "NamespaceReq" || k == "TableManagerReq" => format!("{}::{}", k, inner.keys().next().cloned().unwrap_or_default()),
+            _ => k,
+        }
+    }).collect();
+    if !c07 {
+        // C01: restart (replay of the import entries), then compaction + restart (snapshot)
+        bn.stop()?;
+        let mut b2 = leader_node(&db)?;
+        let d2 = get_dump(&mut b2)?;
+        if d2 != dump_b {
+            b2.kill();
+            return Ok(mismatch(i, 0, "imported state differs after restart", json!(first_diff(&dump_b, &d2)), json!({"request_kinds": kinds})));
+        }
+        let r = b2.call(&json!({"op":"compact"}))?;
+        if r["res"] != "ok" {
+            b2.kill();
+            return Ok(mismatch(i, 0, "compaction of the importing node failed", json!("ok"), r));
+        }
+        b2.stop()?;
+        let mut b3 = leader_node(&db)?;
+        let d3 = get_dump(&mut b3)?;
+        b3.kill();
+        if d3 != dump_b {
+            return Ok(mismatch(i, 0, "imported state differs after compaction and restart", json!(first_diff(&dump_b, &d3)), json!({"request_kinds": kinds})));
+        }
+    } else {
+        bn.kill();
+        // C07: the same entries through the follower path of a fresh node, in two batches
+        let dir_c = tempfile::tempdir()?;
+        let dc = dir_c.path().to_string_lossy().into_owned();
+        let mut c = NodeProc::start(&dc, 700)?;
+        let n = imported_reqs.len();
+        let cut = (n + 1) / 2;
+        let mut idx = 1u64;
+        for part in [&imported_reqs[..cut], &imported_reqs[cut..]] {
+            if part.is_empty() {
+                continue;
+            }
+            let mut items = vec![];
+            for e in part {
+                c.call(&json!({"op":"append_req","index":idx,"term":1,"req":e["req"]}))?;
+                items.push(json!({"index": idx, "req": e["req"]}));
+                idx += 1;
+            }
+            let r = c.call(&json!({"op":"apply_batch","items":items}))?;
+            if r["res"] != "ok" {
+                c.kill();
+                return Ok(mismatch(i, 0, "follower path refused the import entries", json!("ok"), r));
+            }
+        }
+        let dump_c = get_dump(&mut c)?;
+        c.kill();
+        if dump_c != dump_b {
+            return Ok(mismatch(i, 0, "import entries: leader path and follower batch path differ", json!(first_diff(&dump_b, &dump_c)), json!({"request_kinds": kinds})));
+        }
+    }
+    let mut r = ok(i);
+    r["notes"] = json!(notes);
+    r["request_kinds"] = json!(kinds);
+    r["exported_bytes"] = ex["len"].clone();
+    r["exported_items"] = json!(["cfg", "ns", "usr", "nam", "tool", "srv"].iter().map(|p| ca[*p].as_object().map(|o| o.len()).or(ca[*p].as_array().map(|a| a.len())).unwrap_or(0)).sum::<usize>());
+    Ok(r)
+}
+
 pub fn replay(args: &[String]) -> anyhow::Result<()> {
     let behaviours = read_ndjson(&args[0])?;
     let jobs = opt_u64(args, "--jobs", 6) as usize;
     let mode = opt(args, "--mode").unwrap_or("c01").to_string();
     let rs = par_map(&behaviours, jobs, |i, b| {
-        let r = if mode == "c07" { run_c07(i, b) } else { run_c01(i, b) };
+        let r = match mode.as_str() {
+            "c07" => run_c07(i, b),
+            "transfer_c01" => run_transfer(i, b, false),
+            "transfer_c07" => run_transfer(i, b, true),
+            _ => run_c01(i, b),
+        };
         match r {
             Ok(v) => v,
             Err(e) => json!({"kind":"result","i":i,"ok":true,"tool_error":e.to_string()}),
